@@ -24,6 +24,7 @@ def m(prop, rel, old, new, expect, rules=(), note=""):
 
 
 # ---------------------------------------------------------------- C01
+m("C01", "operators/scan.py", "data_type='obj')", "data_type=type(seed))", "fire", ["SD-3"], "the scan defect repaired by 5a0c9ec, re-introduced (typed state chosen from the seed)")
 m('C01', 'operators/scan.py', '                value = state\n                if has_state is False:\n                    value = seed() if callable(seed) else copy.deepcopy(seed)\n                state = accumulator(value, i)', '                value = state\n                if state is False:\n                    value = seed() if callable(seed) else copy.deepcopy(seed)\n                state = accumulator(value, i)', 'fire', ['AG-3b', 'AG-3'], 'hand mutant: obs: unset test on the value (first item folds from None)')
 m('C01', 'operators/scan.py', '                state = accumulator(value, i)\n                has_state = True', '                state = accumulator(value, i)\n                has_state = False', 'fire', ['AG-3b', 'AG-3'], 'hand mutant: obs: has_state never set (every item folds from seed)')
 m('C01', 'operators/scan.py', '                    value = state\n                    if has_state is False:\n                        value = seed() if callable(seed) else copy.deepcopy(seed)\n                    state = terminator(value)', '                    value = state\n                    if state is False:\n                        value = seed() if callable(seed) else copy.deepcopy(seed)\n                    state = terminator(value)', 'fire', ['AG-3b', 'AG-3'], 'hand mutant: obs: terminator on None for empty source')
@@ -118,6 +119,7 @@ m("C08", "operators/tee_map.py", "                if i == n-1:\n                
 m("C08", "operators/tee_map.py", "append_count = (x.key[0]+1) * n - len(queue)", "append_count = x.key[0] * n - len(queue)", "fire", ["TM-5"])
 m("C08", "operators/tee_map.py", "append_count = (x.key[0]+1) * n - len(queue)", "append_count = n * (1 + x.key[0]) - len(has_next)", "silent")
 # ---------------------------------------------------------------- C09
+m("C09", "operators/scan.py", "data_type='obj')", "data_type=type(seed))", "fire", ["SD-3"], "the scan defect repaired by 5a0c9ec, re-introduced (typed state chosen from the seed)")
 m('C09', 'operators/scan.py', '                        if value is rs.state.markers.STATE_NOTSET:\n                            value = seed() if callable(seed) else copy.deepcopy(seed)\n                        acc = terminator(value)', '                        if value is rs.state.markers.STATE_NOTSET:\n                            value = seed() if not callable(seed) else copy.deepcopy(seed)\n                        acc = terminator(value)', 'fire', ['SD-1'], 'hand mutant: callable inverted (terminator, empty key)')
 m('C09', 'operators/scan.py', '                    if has_state is False:\n                        value = seed() if callable(seed) else copy.deepcopy(seed)\n                    state = terminator(value)', '                    if has_state is False:\n                        value = copy.deepcopy(seed) if callable(seed) else seed()\n                    state = terminator(value)', 'fire', ['SD-1'], 'hand mutant: callable arms swapped (obs)')
 m('C09', 'operators/scan.py', '                value = state\n                if has_state is False:\n                    value = seed() if callable(seed) else copy.deepcopy(seed)\n                state = accumulator(value, i)', '                value = state\n                if state is False:\n                    value = seed() if callable(seed) else copy.deepcopy(seed)\n                state = accumulator(value, i)', 'fire', ['AG-3b', 'AG-3'], 'hand mutant: obs: unset test on the value (first item folds from None)')
@@ -375,6 +377,18 @@ def _run_seed(args):
         err = str(e)
     except Exception as e:
         err = "internal error: %r" % (e,)
+    # a seed that a later repair of the library made harmless for its property (meta.json: neutralised_by) must now stay silent
+    neutral = None
+    try:
+        import json as _json
+        with open(os.path.join(seed_dir, "meta.json")) as f:
+            neutral = _json.load(f).get("neutralised_by")
+    except Exception:
+        pass
+    if neutral:
+        status = "ok" if not fired and not err else ("cannot-analyse" if err and not fired else "FALSE-ALARM")
+        return dict(id="seed-" + sid, status=status, fired=sorted(set(fired)), error=err, expect="silent",
+                    note="seeded change %s, harmless for %s since the repair %s" % (sid, prop, neutral), rel=",".join(files))
     status = "ok" if fired else ("cannot-analyse" if err else "MISSED")
     return dict(id="seed-" + sid, status=status, fired=sorted(set(fired)), error=err, expect="fire", note="independently seeded change " + sid, rel=",".join(files))
 
